@@ -179,8 +179,17 @@ class Kernel:
         ft = self.ses.need(ex, "format_token")
         clos, rx_name = None, None
         prev_deref = None
-        for bb in sorted(ft.blocks, key=lambda b: int(b[2:])):
-            for s in ft.blocks[bb]:
+        # format_token itself, then the in-crate helpers it calls (a refactoring may move the string arm into one)
+        hosts = [ft]
+        for sts in ft.blocks.values():
+            for s in sts:
+                if s[0] == "call":
+                    g = ex.resolve(s[2])
+                    if g is not None and g.blocks and "{closure" not in g.name and g not in hosts and any("Regex::replace_all" in s2[2] for b2 in g.blocks.values() for s2 in b2 if s2[0] == "call"):
+                        hosts.append(g)
+        self.hosts = hosts
+        for ft_, bb in [(h, b) for h in hosts for b in sorted(h.blocks, key=lambda b: int(b[2:]))]:
+            for s in ft_.blocks[bb]:
                 if s[0] != "call":
                     continue
                 m = re.fullmatch(r"<([A-Z_][A-Z0-9_]*) as Deref>::deref", canon(s[2]))
